@@ -119,6 +119,8 @@ impl<'a> Printer<'a> {
                     let prev = self.out.chars().last().unwrap_or(' ');
                     let glue = self.tight
                         && ((next.starts_with('@') && (prev.is_ascii_alphanumeric() || prev == '_'))
+                            // path elements written the usual way: `/items/`, `/users/{ 'id int }/`
+                            || (next.starts_with('/') && (prev.is_ascii_alphanumeric() || matches!(prev, '}' | '-' | '_' | '.' | '~')))
                             || matches!(next, ")" | "}" | "]" | "," | ";")
                             || matches!(prev, '(' | '{' | '['));
                     if !glue {
